@@ -711,12 +711,14 @@ func (e *ConcatExpression) Evaluate(ctx *Context, input system.Collection) (syst
 		return nil, err
 	}
 
-	// Convert empty collection to empty string
+	// Convert empty collection to empty string. A fresh collection is used so
+	// that the operand's backing array (which may belong to the caller, e.g. an
+	// environment variable) is never written to.
 	if len(leftResult) == 0 {
-		leftResult = append(leftResult, system.String(""))
+		leftResult = system.Collection{system.String("")}
 	}
 	if len(rightResult) == 0 {
-		rightResult = append(rightResult, system.String(""))
+		rightResult = system.Collection{system.String("")}
 	}
 
 	if len(leftResult) > 1 || len(rightResult) > 1 {
